@@ -138,12 +138,27 @@ type TreeGen struct {
 	IndexOpts bool
 	Wraps     bool
 	MutexOpt  bool
+	NoNestAfter   bool // SetNoNesting(true) on a random fifth of the nodes AFTER their content is in ("never affects elements already present")
+	ReadOnlyNodes bool // SetReadOnly(true) on a random sixth of the nodes (stacks and Conditions) after assembly: neutral for every query
+	EqPolicies    bool // an accepting or rejecting equality closure on a random tenth of the nodes
 	WideRuns  bool // at most one node per tree additionally gets a run of 12..40 plain leaves (not counted against Budget)
 	Ambient   bool // neutral settings (identifier, category, aux, less, accepting closures, logger, mutex) on a random half of the nodes
 	FIFOOpt   bool
 	NilLeaves bool
 	EmptyStacks bool
 	Budget    int // max total nodes
+}
+
+// genUncomparable: a leaf whose Go type cannot be compared with == (a slice or a map): code that
+// compares two `any` values directly panics on two of them.
+func genUncomparable(t *rapid.T, tag int) Val {
+	switch rapid.IntRange(0, 2).Draw(t, "uncomparable") {
+	case 0:
+		return Val{K: "slice", Elems: []Val{VS("s" + itoa(tag)), VS("t")}}
+	case 1:
+		return Val{K: "map", Keys: []string{"k" + itoa(tag)}, Elems: []Val{VI(int64(tag))}}
+	}
+	return Val{K: "slice", Elems: []Val{VI(int64(tag)), VI(2)}}
 }
 
 type treeState struct {
@@ -199,6 +214,15 @@ func (st *treeState) stackOpts(t *rapid.T, n *Node) {
 	}
 	if g.Ambient {
 		n.Amb = drawAmbient(t, true)
+	}
+	if g.NoNestAfter {
+		n.NoNest = rapid.IntRange(0, 4).Draw(t, "nonest-after") == 0
+	}
+	if g.EqPolicies && rapid.IntRange(0, 9).Draw(t, "eqpol?") == 0 {
+		n.EqPol = rapid.IntRange(1, 2).Draw(t, "eqpol")
+	}
+	if g.ReadOnlyNodes {
+		n.ReadOnly = rapid.IntRange(0, 5).Draw(t, "readonly-node") == 0
 	}
 	if g.Wraps {
 		n.Wrap = rapid.IntRange(0, 6).Draw(t, "wrap")
@@ -299,6 +323,15 @@ func (st *treeState) cond(t *rapid.T, depth int) Node {
 	}
 	if g.Wraps {
 		n.Wrap = rapid.IntRange(0, 6).Draw(t, "cwrap")
+	}
+	if g.NoNestAfter {
+		n.NoNest = rapid.IntRange(0, 4).Draw(t, "cond-nonest-after") == 0
+	}
+	if g.EqPolicies && rapid.IntRange(0, 9).Draw(t, "cond-eqpol?") == 0 {
+		n.EqPol = rapid.IntRange(1, 2).Draw(t, "cond-eqpol")
+	}
+	if g.ReadOnlyNodes {
+		n.ReadOnly = rapid.IntRange(0, 5).Draw(t, "cond-readonly") == 0
 	}
 	return n
 }
